@@ -128,21 +128,24 @@ def TD.visitTerm (d : TD) (cur : Bool) : Nat → Nat → List Seen → Option (L
         ids.foldlM (fun acc i => if d.doTerm cur i then d.visitTerm cur f i acc else some acc) acc
       | _ => some acc
 
+/-- `if (doVisitTerm(m, id)) out.visit(...)` -/
+def TD.optTerm (d : TD) (cur : Bool) (fuel : Nat) (acc : List Seen) (i : Nat) : Option (List Seen) :=
+  if d.doTerm cur i then d.visitTerm cur fuel i acc else some acc
+
 def TD.visitElem (d : TD) (cur : Bool) (fuel : Nat) (id : Nat) (acc : List Seen) : Option (List Seen) :=
   match d.getElem id with
   | none => none
-  | some e =>
-    e.terms.foldlM (fun acc i => if d.doTerm cur i then d.visitTerm cur fuel i acc else some acc) (acc ++ [.elem id])
+  | some e => e.terms.foldlM (d.optTerm cur fuel) (acc ++ [.elem id])
 
-def TD.visitAtom (d : TD) (cur : Bool) (fuel : Nat) (i : Nat) (a : Atom) (acc : List Seen) : Option (List Seen) := do
-  let acc := acc ++ [.atom i]
-  let acc ← if d.doTerm cur a.term then d.visitTerm cur fuel a.term acc else some acc
-  let acc ← a.elems.foldlM (fun acc e => if d.doElem cur e then d.visitElem cur fuel e acc else some acc) acc
+def TD.optElem (d : TD) (cur : Bool) (fuel : Nat) (acc : List Seen) (e : Nat) : Option (List Seen) :=
+  if d.doElem cur e then d.visitElem cur fuel e acc else some acc
+
+def TD.visitAtom (d : TD) (cur : Bool) (fuel : Nat) (i : Nat) (a : Atom) (acc : List Seen) : Option (List Seen) :=
+  (d.optTerm cur fuel (acc ++ [.atom i]) a.term).bind fun acc =>
+  (a.elems.foldlM (d.optElem cur fuel) acc).bind fun acc =>
   match a.guard with
   | none => some acc
-  | some (op, rhs) => do
-    let acc ← if d.doTerm cur op then d.visitTerm cur fuel op acc else some acc
-    if d.doTerm cur rhs then d.visitTerm cur fuel rhs acc else some acc
+  | some (op, rhs) => (d.optTerm cur fuel acc op).bind fun acc => d.optTerm cur fuel acc rhs
 
 /-- `accept(visitor, mode)`; `none` = an exception (dangling reference) ended the visit. -/
 def TD.visit (d : TD) (cur : Bool) : Option (List Seen) :=
